@@ -220,6 +220,48 @@ def lean_audit(prop: str) -> dict:
     return res
 
 
+# ----------------------------------------------------------------------------- source fingerprints
+
+FINGERPRINTS = VERIF / "fingerprints.json"
+
+
+def anchor_files(prop: str) -> list[str]:
+    for line in (VERIF / "properties.jsonl").read_text().splitlines():
+        if line.strip():
+            d = json.loads(line)
+            if d["id"] == prop:
+                return list(d["anchors"]["files"])
+    return []
+
+
+def ast_fingerprint(path: Path) -> str:
+    """hash of the AST (comments / formatting do not matter); 'missing' / 'syntax-error' when it cannot be computed"""
+    import ast
+    import hashlib
+
+    try:
+        tree = ast.parse(path.read_text())
+    except FileNotFoundError:
+        return "missing"
+    except SyntaxError:
+        return "syntax-error"
+    return hashlib.sha1(ast.dump(tree, include_attributes=False).encode()).hexdigest()
+
+
+def changed_anchor_files(prop: str) -> list[str]:
+    """anchored source files of `prop` whose AST differs from the fingerprint recorded at the last integration
+    (tools/update_fingerprints.py).  A change is never a verdict; it only escalates the search depth of the run."""
+    try:
+        rec = json.loads(FINGERPRINTS.read_text())
+    except Exception:
+        return []
+    out = []
+    for f in anchor_files(prop):
+        if f in rec and ast_fingerprint(REPO / f) != rec[f]:
+            out.append(f)
+    return out
+
+
 # ----------------------------------------------------------------------------- findings / evidence
 
 
@@ -267,6 +309,7 @@ class Stats:
 
 
 def write_evidence(prop: str, tier: str, seed: int, coverage: dict, assumptions: list[str], wall: float, violations: int):
+    tier = "thorough" if tier == "thorough" else "quick"
     EVIDENCE_DIR.mkdir(exist_ok=True)
     ev = {
         "property_id": prop,
